@@ -9,6 +9,7 @@ import (
 	"fmt"
 	"os"
 	"os/exec"
+	"path/filepath"
 	"strings"
 	"sync"
 	"syscall"
@@ -48,6 +49,11 @@ type Child struct {
 	holdReport bool   // do not answer reports; count them
 	heldCount  int
 	Reports    int
+	raceOff    map[string]int
+
+	// asynchronous disturbances (C20), cumulative over the life of the process
+	WinchSent, WinchSeen   int
+	PrintfSent, PrintfDone int
 
 	keepShots bool
 	shots     map[int][2]*Screen
@@ -111,7 +117,8 @@ func StartChild(bin, scratch string) (*Child, error) {
 		"GOTRACEBACK=crash",
 	}
 	if v := os.Getenv("VERIF_CHILD_GORACE"); v != "" {
-		cmd.Env = append(cmd.Env, "GORACE="+v)
+		// the report would otherwise go to fd 2, which is the terminal
+		cmd.Env = append(cmd.Env, "GORACE="+v+" log_path="+scratch+"/race")
 	}
 
 	// Own session but NO controlling terminal: the kernel then never sends a
@@ -236,7 +243,44 @@ func (c *Child) CrashOutput() string {
 	c.crashMu.Lock()
 	defer c.crashMu.Unlock()
 
-	return string(c.crash)
+	out := string(c.crash)
+
+	// reports of the race detector not taken yet (children built with -race)
+	out += c.takeRaceLogLocked()
+
+	return out
+}
+
+// TakeRaceLog returns what the race detector has reported since the last call
+// (children built with -race; the log goes to a file because fd 2 is the terminal).
+func (c *Child) TakeRaceLog() string {
+	c.crashMu.Lock()
+	defer c.crashMu.Unlock()
+
+	return c.takeRaceLogLocked()
+}
+
+func (c *Child) takeRaceLogLocked() string {
+	logs, _ := filepath.Glob(c.Scratch + "/race.*")
+	out := ""
+
+	for _, l := range logs {
+		b, err := os.ReadFile(l)
+		if err != nil {
+			continue
+		}
+
+		if c.raceOff == nil {
+			c.raceOff = map[string]int{}
+		}
+
+		if off := c.raceOff[l]; off < len(b) {
+			out += string(b[off:])
+			c.raceOff[l] = len(b)
+		}
+	}
+
+	return out
 }
 
 // Dead reports whether the child is gone.
